@@ -20,7 +20,7 @@ RULE = ("Engine 'pca': Hypothesis draws an image stack (N in k+1..40 images of s
         "Engine 'loader': loader.classify on tomograms with planted, interleaved particle classes: exactly one new "
         "integer column, row i <-> molecule i, nothing else changed. Non-trivial = > 1 chunk along the sample axis, "
         "> 500 features, or N > k + 10.")
-RULE += (" " + 'Also: int16 stacks, boolean masks, row subsets in any order with repeats.')
+RULE += (" " + 'Also: int16 stacks, boolean masks, row subsets in any order with repeats. Round 7: data class `unbalanced` (150-170 images, one abundant and two 2-image classes 17 sigma apart, which k-means only separates with its several initialisations); loader engine with molecules in random orientations and a tilt range: the singular values must be those of the wedge-masked differences computed molecule by molecule with a fresh model.')
 TOLERANCES = {"singular values": "rtol 1e-3 (float32 data)", "components": "|cos| >= 1 - 1e-3 (gap >= 1%)",
               "projections": "2e-3 * sigma_1", "orthonormality": "1e-4"}
 ASSUMPTIONS = ["k-means separation is only asserted for planted clusters whose centres are >= 12 noise sigmas apart"]
@@ -38,6 +38,18 @@ def make_stack(d):
         protos = [gen.smooth_noise(d["seed"] + 100 + i, shape, sigma=0.8).astype(np.float64) * 6.0 for i in range(nc)]
         labels = np.array([i % nc for i in range(n)])
         X = np.stack([protos[l] for l in labels]) + 0.25 * rng.standard_normal((n,) + shape)
+    elif cls == "unbalanced":
+        # one abundant class and two rare ones (2 images each), centres 17 noise sigmas apart: a regime in which k-means
+        # needs its several initialisations (a single k-means++ start merges or splits groups in about a third of the cases,
+        # ten starts failed in none of 240 trials)
+        nc = d["n_clusters"]
+        v = rng.standard_normal((nc, F))
+        protos = [(17.0 * v[i] / np.linalg.norm(v[i])).reshape(shape) for i in range(nc)]
+        labels = np.zeros(n, dtype=int)
+        for c in range(1, nc):
+            at = (c * n) // (nc + 1)
+            labels[at:at + 2] = c
+        X = np.stack([protos[l] for l in labels]) + rng.standard_normal((n,) + shape)
     elif cls == "lowrank":
         r = min(d["k"] + 2, n - 1, F)
         basis = rng.standard_normal((r, F))
@@ -224,7 +236,14 @@ def judge_loader(d):
     pos = np.array([[lo[0] + (shape[0] - 1) / 2, lo[1] + (shape[1] - 1) / 2, i * S + lo[2] + (shape[2] - 1) / 2] for i in range(n)])
     scale = d["scale"]
     feats = pl.DataFrame({"uid": list(range(n)), "w": [1.5 * i for i in range(n)]})
-    mole = Molecules(pos * scale, features=feats)
+    rotated = bool(d.get("rotated"))
+    if rotated:
+        # molecules in different orientations (each sees its own missing wedge); the planted classes are then not expected
+        # to be recovered, the PCA input itself is checked instead
+        rots = Rotation.from_rotvec(np.random.default_rng(d["seed"]).normal(size=(n, 3)) * 0.9)
+        mole = Molecules(pos * scale, rots, features=feats)
+    else:
+        mole = Molecules(pos * scale, features=feats)
     loader = SubtomogramLoader(tomo.astype(np.float32), mole, order=1, scale=scale, output_shape=shape)
     before = (mole.pos.copy(), mole.quaternion().copy(), mole.features.clone())
     tag = f"n={n} shape={shape} classes={classes} n_clusters={nc} label_name={d['label_name']}"
@@ -236,6 +255,23 @@ def judge_loader(d):
     if not (np.array_equal(loader.molecules.pos, before[0]) and np.array_equal(loader.molecules.quaternion(), before[1])
             and loader.molecules.features.equals(before[2])):
         out.append(viol("C18/parent-modified", f"{tag}: classify modified the parent loader's molecules"))
+    if d["tilt"]:
+        # the PCA input is one wedge-masked difference per molecule, each with the wedge of its own orientation: the singular
+        # values must be those of the stack built molecule by molecule with a fresh model each (nothing carried over from
+        # the molecule processed before)
+        from acryo.alignment import ZNCCAlignment
+        with warnings.catch_warnings():
+            warnings.simplefilter("ignore")
+            avg = loader.average(shape)
+            quats = loader.molecules.quaternion()
+            D = np.stack([np.asarray(ZNCCAlignment(avg, None, cutoff=0.5, tilt=tuple(d["tilt"])).masked_difference(loader.load(i), quats[i]),
+                                     dtype=np.float64).ravel() for i in range(n)])
+        D = D - D.mean(axis=0, keepdims=True)
+        want_sv = np.linalg.svd(D, compute_uv=False)[: d["k"]]
+        got_sv = np.asarray(res.classifier.pca.singular_values_, dtype=np.float64)
+        if got_sv.shape != want_sv.shape or not np.abs(got_sv - want_sv).max() <= 2e-3 * (want_sv.max() + 1e-12):
+            out.append(viol("C18/loader-pca-input", f"{tag} tilt={d['tilt']} rotated={rotated}: singular values {np.round(got_sv, 4).tolist()} but the "
+                            f"per-molecule wedge-masked differences give {np.round(want_sv, 4).tolist()}"))
     if len(new) != n or not np.array_equal(new.pos, before[0]) or not np.allclose(new.quaternion(), before[1]):
         out.append(viol("C18/molecules-changed", f"{tag}: positions/rotations changed by classify"))
         return out
@@ -253,6 +289,8 @@ def judge_loader(d):
     for a, b in zip(classes, lab):
         if mapping.setdefault(a, b) != b:
             ok = False
+    if rotated:
+        return out
     if not ok or len(set(mapping.values())) != len(mapping):
         out.append(viol("C18/labels-not-in-molecule-order", f"{tag}: planted classes {classes} but labels {lab}"))
     return out
@@ -264,7 +302,12 @@ def pca_cases(draw):
     shape = draw(gen.box_shapes(3, 9))
     n = draw(st.one_of(st.integers(k + 1, k + 8), st.integers(k + 1, 40)))
     n = max(n, 3)  # k-means needs N >= n_clusters
-    data = draw(st.sampled_from(["clusters", "lowrank", "noise"]))
+    data = draw(st.sampled_from(["clusters", "clusters", "lowrank", "lowrank", "noise", "noise", "unbalanced", "unbalanced"]))
+    if data == "unbalanced":
+        return {"k": draw(st.integers(2, 4)), "shape": [3, 3, 3], "n": draw(st.integers(150, 170)), "data": data, "n_clusters": 3,
+                "seed": draw(gen.seeds), "kseed": draw(st.integers(0, 99)), "mask": "none",
+                "chunks": None,
+                "sub": draw(st.lists(st.integers(0, 39), min_size=1, max_size=6)), "sub_chunked": draw(st.booleans()), "stack_dtype": "float32"}
     nclu = draw(st.integers(2, 3))
     if data == "clusters":
         n = max(n, 2 * nclu)
@@ -283,7 +326,7 @@ def loader_cases(draw):
     return {"shape": draw(gen.box_shapes(4, 7)), "n": draw(st.integers(2 * nclu, 10)), "n_clusters": nclu, "k": draw(st.integers(2, 3)),
             "seed": draw(gen.seeds), "kseed": draw(st.integers(0, 99)), "scale": draw(st.sampled_from([1.0, 0.5, 1.37])),
             "classes": draw(st.lists(st.integers(0, 2), min_size=3, max_size=10)),
-            "label_name": draw(st.sampled_from(["cluster", "my-class"])), "tilt": draw(st.sampled_from([None, None, [-60.0, 60.0]]))}
+            "label_name": draw(st.sampled_from(["cluster", "my-class"])), "tilt": draw(st.sampled_from([None, None, [-60.0, 60.0], [-40.0, 50.0]])), "rotated": draw(st.booleans())}
 
 
 def nontrivial(d):
